@@ -123,6 +123,19 @@ def handleSearchChk : List String → Ans
         | _ => bad
   | _ => bad
 
+/-- the same position with its two function fields tabulated (a position produced by `n` moves is otherwise a chain
+of `n` closures, and every look-up walks the chain); extensionally equal to its argument -/
+def tabulate (p : Position) : Position :=
+  let a : Array (Option (Color × Piece)) := Array.ofFn (n := 64) (fun i => p.pieceAt i)
+  let r0 := p.rights .king .white
+  let r1 := p.rights .queen .white
+  let r2 := p.rights .king .black
+  let r3 := p.rights .queen .black
+  { p with
+    pieceAt := fun s => (a[s.val]?).join,
+    rights := fun sd c => match sd, c with
+      | .king, .white => r0 | .queen, .white => r1 | .king, .black => r2 | .queen, .black => r3 }
+
 /-- `bot <tok>...` with tokens `set:<pos64>`, `mv:<move>=<valid|valid+3fold|invalid>`,
 `board=<pos64>`, `eval:<k>:<prev>=<mv>,<score>,<depth>,<evals>,<polls>`.
 Model: its own outputs in the same syntax.  Specification: echo of the tokens if every observed
@@ -144,6 +157,10 @@ partial def botLoop (ms : Bot.State) (ss : Spec.Bot.State) (toks : List String) 
         let (ms', r) := Bot.makeMove ms mv
         let out := if r.isValid then (if r.isThreeFold then "valid+3fold" else "valid") else "invalid"
         let (ss', v, f) := Spec.Bot.makeMove ss mv
+        let ss' : Spec.Bot.State := if v then
+            let q := tabulate ss'.pos
+            ⟨q, ss.produced ++ [q]⟩
+          else ss' 
         let sout := if v then (if f then "valid+3fold" else "valid") else "invalid"
         let reject := match reject with
           | some r => some r
